@@ -1,4 +1,5 @@
 //! helpers shared by the harness commands
+#![allow(dead_code)]
 use std::panic::{catch_unwind, AssertUnwindSafe};
 
 pub fn unhex(s: &str) -> Vec<u8> {
